@@ -1,4 +1,112 @@
-From ZV Require Import Base.Bytes C16.Model.
-Theorem C16_placeholder : mech_eqb External External = true.
-Proof. reflexivity. Qed.
-Print Assumptions C16_placeholder.
+(* Properties/C16.v — the server-side SASL handshake authenticates exactly the right peers.
+   Only statements, each closed by [exact] of a lemma of C16/Proofs.v or C16/SplitProofs.v, and their assumptions.
+
+   run_server cfg cs      the model of Builder::socket(..).server(guid).p2p().build() (C16/Model.v) reading the
+                          chunks cs (what successive recvmsg calls return: bytes and fds)
+   spec_verdict, known_class, accepts, conforms, match_replies, empty_line_ahead     C16/Spec.v
+   chunks_nonempty cs     the transport contract: a read returns at least one byte before the end of the stream *)
+From ZV Require Import Base.Bytes Base.Res C16.Model C16.Spec C16.SplitProofs C16.Proofs.
+
+(* ---- every way the stream is cut gives the same outcome (status, bytes written, fd agreement, bytes and fds
+        handed to the message reader) *)
+Theorem C16_split_indep : forall cfg cs1 cs2,
+  chunks_nonempty cs1 = true -> chunks_nonempty cs2 = true ->
+  stream_of cs1 = stream_of cs2 -> fds_of cs1 = fds_of cs2 ->
+  run_server cfg cs1 = run_server cfg cs2.
+Proof. exact split_independence. Qed.
+Print Assumptions C16_split_indep.
+
+(* ---- the full statement: on every stream the observable outcome is the one the specification prescribes
+        (completion exactly on an accepted conversation, exactly the prescribed replies, the rest of the stream and
+        all fds handed on, and never a panic).  It does NOT hold of the pinned code: *)
+Definition C16_full_statement : Prop :=
+  forall cfg cs, chunks_nonempty cs = true ->
+    conforms (ctx_of cfg) (spec_verdict (ctx_of cfg) (stream_of cs)) (fds_of cs) (obs_of (run_server cfg cs)) = true.
+
+Theorem C16_full_statement_refuted : ~ C16_full_statement.
+Proof. exact full_statement_refuted. Qed.
+Print Assumptions C16_full_statement_refuted.
+
+(* ---- ... and it holds outside the three known classes ([known_class] names the first deviation trigger met by
+        the ideal conversation: a bare LF at a line start, a bare DATA under EXTERNAL with unknown credentials, a
+        line that is not a well-formed known command) *)
+Theorem C16_conforms_partial : forall cfg cs,
+  chunks_nonempty cs = true ->
+  known_class (ctx_of cfg) (stream_of cs) = None ->
+  conforms (ctx_of cfg) (spec_verdict (ctx_of cfg) (stream_of cs)) (fds_of cs) (obs_of (run_server cfg cs)) = true.
+Proof. exact server_conforms. Qed.
+Print Assumptions C16_conforms_partial.
+
+(* ---- authentication: the handshake completes exactly on the conversations of the inductive relation [accepts]
+        (BEGIN after a successful AUTH in the configured mechanism; EXTERNAL only with known credentials and an
+        empty or equal identity; ANONYMOUS with any trace) *)
+Theorem C16_auth_partial : forall cfg cs,
+  chunks_nonempty cs = true ->
+  known_class (ctx_of cfg) (stream_of cs) = None ->
+  spec_verdict (ctx_of cfg) (stream_of cs) <> VUnclear ->
+  (is_done (run_server cfg cs) = true <-> accepts (ctx_of cfg) (stream_of cs)).
+Proof. exact auth_partial. Qed.
+Print Assumptions C16_auth_partial.
+
+(* completion is never granted wrongly either when a malformed line ends the conversation early *)
+Theorem C16_auth_sound_partial : forall cfg cs,
+  chunks_nonempty cs = true ->
+  known_class (ctx_of cfg) (stream_of cs) = None \/ known_class (ctx_of cfg) (stream_of cs) = Some KMalformed ->
+  spec_verdict (ctx_of cfg) (stream_of cs) <> VUnclear ->
+  is_done (run_server cfg cs) = true -> accepts (ctx_of cfg) (stream_of cs).
+Proof. exact auth_sound_partial. Qed.
+Print Assumptions C16_auth_sound_partial.
+
+(* the executable verdict used as oracle says "completes" exactly on the relation *)
+Theorem C16_accepts_executable : forall x s,
+  accepts x s <-> exists rs fd tail, spec_verdict x s = VDone rs fd tail.
+Proof. exact accepts_iff_done. Qed.
+Print Assumptions C16_accepts_executable.
+
+(* ---- replies: REJECTED for other mechanisms and failed identities, ERROR for misplaced commands, DATA, OK <guid>,
+        AGREE_UNIX_FD: the bytes written are exactly the prescribed reply lines *)
+Theorem C16_replies_partial : forall cfg cs rs,
+  chunks_nonempty cs = true ->
+  known_class (ctx_of cfg) (stream_of cs) = None ->
+  (spec_verdict (ctx_of cfg) (stream_of cs) = VFail rs \/
+   exists fd tail, spec_verdict (ctx_of cfg) (stream_of cs) = VDone rs fd tail) ->
+  match_replies (ctx_of cfg) rs (written (run_server cfg cs)) = true.
+Proof. exact replies_partial. Qed.
+Print Assumptions C16_replies_partial.
+
+(* ---- no panic, unless an LF stands where a line should start *)
+Theorem C16_nopanic_partial : forall cfg cs,
+  chunks_nonempty cs = true ->
+  empty_line_ahead (stream_of cs) true = false ->
+  is_panic (run_server cfg cs) = false.
+Proof. exact nopanic_partial. Qed.
+Print Assumptions C16_nopanic_partial.
+
+(* ---- the three known findings *)
+Theorem C16_lf_panic_refuted :
+  exists cfg cs, chunks_nonempty cs = true /\ is_panic (run_server cfg cs) = true.
+Proof. exact lf_panic_refuted. Qed.
+Print Assumptions C16_lf_panic_refuted.
+
+Theorem C16_bare_data_refuted :
+  exists cfg cs, chunks_nonempty cs = true /\ sc_mech cfg = External /\ sc_uid cfg = None /\
+                 is_done (run_server cfg cs) = true /\ ~ accepts (ctx_of cfg) (stream_of cs).
+Proof. exact bare_data_refuted. Qed.
+Print Assumptions C16_bare_data_refuted.
+
+Theorem C16_malformed_abort_refuted :
+  exists cfg cs, chunks_nonempty cs = true /\
+                 spec_verdict (ctx_of cfg) (stream_of cs) = VFail [RError] /\
+                 run_server cfg cs = OErr EHandshake [].
+Proof. exact malformed_abort_refuted. Qed.
+Print Assumptions C16_malformed_abort_refuted.
+
+(* ---- the fuel of the model's loop and of the specification's loop is never the reason for an outcome *)
+Theorem C16_fuel_sufficient : forall cfg cs w, chunks_nonempty cs = true -> run_server cfg cs <> OErr EFuel w.
+Proof. exact fuel_sufficient. Qed.
+Print Assumptions C16_fuel_sufficient.
+
+Theorem C16_spec_fuel_irrelevant : forall f1 f2 x st fd rs s,
+  length s < f1 -> length s < f2 -> spec_loop f1 x st fd rs s = spec_loop f2 x st fd rs s.
+Proof. exact spec_loop_fuel. Qed.
+Print Assumptions C16_spec_fuel_irrelevant.
